@@ -27,7 +27,12 @@ def read_env(env):
     out = []
     for i in env.read():
         acts = list(i["actions"])
-        out.append(dict(context=plain(i["context"]), actions=acts, rewards=[i["rewards"](a) for a in acts], rfun=i["rewards"]))
+        c = i["context"]
+        named = None
+        if hasattr(c, "headers") and not isinstance(c, dict):
+            try: named = {nm: c[nm] for nm in c.headers}
+            except Exception as e: named = "raises %s" % type(e).__name__
+        out.append(dict(context=plain(c), named=named, actions=acts, rewards=[i["rewards"](a) for a in acts], rfun=i["rewards"]))
     return out
 
 def expect(label_type, Y):
@@ -69,6 +74,18 @@ def check_xy(ctx, n_cases):
             if not ok: break
             ok = ok and g["context"] == x and g["actions"] == acts
             ok = ok and all(abs(Fr(g["rfun"](a)) - Fr(rew(y, a))) < Fr(1, 10**9) for a in probe)
+        if ok and eff == "m":      # a multi-label action (list, tuple, set, frozenset of labels) earns the Jaccard overlap with the example's labels
+            for g, y in zip(got, Y):
+                for mk in (list, tuple, set, frozenset):
+                    for A in ([y[0]], list(y), acts[:2], list(acts)):
+                        want = Fr(len(set(A) & set(y)), len(set(A) | set(y)))
+                        try: val = Fr(g["rfun"](mk(A)))
+                        except Exception as e: val = None
+                        if val is None or abs(val - want) > Fr(1, 10**9):
+                            ctx.fail(["xy", "wrong", "m", "set-action"], "labels %r: the action %r earns %r, the Jaccard overlap is %s" % (y, mk(A), val, want), case); ok = None; break
+                    if ok is None: break
+                if ok is None: break
+            if ok is None: continue
         if not ok:
             ctx.fail(["xy", "wrong", eff, lk], "SupervisedSimulation(X,Y,%r) -> %s; expected actions %s and rewards by definition, on %s" % (lt, [(g["context"], g["actions"], g["rewards"]) for g in got][:4], acts, case), case); continue
         ctx.sample(dict(case=case, actions=acts, rewards=[g["rewards"] for g in got][:3]), cap=4)
@@ -140,6 +157,12 @@ def check_sources(ctx, n_cases):
         exp_n = n if take is None else min(take, n)
         ok = len(got) == exp_n and [g["context"] for g in got] == [g["context"] for g in again]
         what = "count/determinism"
+        if ok and fmt in ("csv", "arff"):      # a context that carries column names answers by name what it answers by position
+            fnames = [nm for j, nm in enumerate(names) if j != lab]
+            for g in got:
+                if g["named"] is None: continue
+                if isinstance(g["named"], str) or [g["named"].get(nm) for nm in fnames if nm in g["named"]] != [v for nm, v in zip(fnames, g["context"]) if nm in g["named"]] or set(g["named"]) != set(fnames):
+                    ok = False; what = "context-by-name"; got = [dict(g, context=g["named"]) for g in got]; break
         if ok and take is not None and not cat:
             # with take the environment is the seeded sample: its label set is the sample's (contexts identify the sampled examples)
             pool = list(zip(exp_ctx, labels)); sample_labels = []
